@@ -158,6 +158,45 @@ def run(ctx):
     ctx.add_exploration('dulprovider.DULServiceProvider._check_timer', timer_case, res,
                         target='dulprovider.DULServiceProvider._check_timer')
 
+    # ------------------------------------------------------------------ (2') the two queues between user and provider
+    def queues(p):
+        label = 'dulprovider.DULServiceProvider.send'
+        ob = obl(p, label)
+        provider, sock = c12.build_provider(it)
+        out_q = provider.fields['from_service_user'].fields['items'].items
+        in_q = provider.fields['to_service_user'].fields['items'].items
+        del out_q[:]
+        del in_q[:]
+        x, y = Opaque('first primitive'), Opaque('second primitive')
+        try:
+            it.call(it.getattr(provider, 'send'), [x], {})
+            it.call(it.getattr(provider, 'send'), [y], {})
+        except Raised as e:
+            ob('noexc', False, exception=e.exc.cls.name)
+            p.outcome = 'normal'
+            return
+        ob('user-primitives-queued-in-order-of-the-requests', len(out_q) == 2 and out_q[0] is x and out_q[1] is y and not in_q)
+        a, b = Opaque('first indication'), Opaque('second indication')
+        in_q.extend([a, b])
+        lab2 = 'dulprovider.DULServiceProvider.receive'
+        ob2 = obl(p, lab2)
+        got, raised = [], None
+        try:
+            got.append(it.call(it.getattr(provider, 'receive'), [5], {}))
+            got.append(it.call(it.getattr(provider, 'receive'), [5], {}))
+            it.call(it.getattr(provider, 'receive'), [5], {})
+        except Raised as e:
+            raised = e.exc.cls.name
+        ob2('indications-delivered-once-in-order', len(got) == 2 and got[0] is a and got[1] is b and not in_q)
+        ob2('nothing-to-deliver-is-a-timeout-error', raised == 'DCMTimeoutError')
+        ob2('user-queue-untouched', len(out_q) == 2)
+        p.outcome = 'normal'
+    for q in ('dulprovider.DULServiceProvider.send', 'dulprovider.DULServiceProvider.receive'):
+        fv, _ = verify.lookup_function(it, q)
+        infos.append(verify.function_info(it, fv))
+    ctx.extra['functions'] = infos
+    ctx.add_exploration('dulprovider.DULServiceProvider.send', queues, res, target='dulprovider.DULServiceProvider.send')
+
     # ------------------------------------------------------------------ (5) idle: nothing is read
     def idle(p):
         label = 'dulprovider.DULServiceProvider._check_network[idle]'
